@@ -462,6 +462,26 @@ def run(ctx):
             ck.ob('C06-a', 'R4.tiling', fn.name, 'object=check_full_hash', obj is not None and 'check_full_hash' in obj,
                   'extents are hashed into %s, the object validate_header finalises' % obj, fn.file, fn.line,
                   config=config)
+        # ---- e  the identifier is the one part of the header the checksum does not see (a constant is hashed in its
+        #         place): it must be compared in full against the two legal identifiers
+        from . import c13
+        rl = prog.need_func('read_lead')
+        seq = c13.canon(c13.reader_sequence(rl), part='lead')
+        first = seq[0] if seq else None
+        cmps = []
+        for c in calls_of(rl, ('memcmp', 'strncmp', 'strcmp')):
+            lits = [strip(a) for a in c.a[1:] if strip(a) is not None and strip(a).k == 'str']
+            if lits and len(c.a) > 3:
+                cmps.append((c, const_value(c.a[3])))
+        okid = first is not None and tuple(first)[:2] == ('bytes5', 'magic') and len(cmps) >= 2 and \
+            all(n_ == 5 for c, n_ in cmps)
+        ck.ob('C06-e', 'R8.layout', rl.name, 'identifier', okid,
+              'the lead starts with a 5-byte comparison against each of the %d identifier literals (the checksum covers a '
+              'constant in place of these bytes)' % len(cmps) if okid else
+              'the identifier is not compared over its full 5 bytes against the identifier literals (parsed as %s; '
+              'comparison lengths %s): read_header_from_file hashes a constant in place of these bytes, so a changed '
+              'identifier byte is covered by nothing' % (first, [n_ for c, n_ in cmps]), rl.file,
+              cmps[0][0].line if cmps else rl.line, config=config)
         # ---- gate object and comparison in validate_header
         vh = prog.need_func('validate_header')
         subst = unique_defs(vh)
